@@ -21,19 +21,21 @@ func init() {
 			"L-unsync — enumerated: every struct field, in non-test module code, that holds a pointer to a lock-configurable type (a struct with its own sync.Mutex/RWMutex some method of which skips the acquisition depending on a bool field that is only ever stored on objects under construction — today internal/lru.Cache with nolock); the configuration of every value stored into the field is derived from its construction (composite literal / new = zero, constant stores dominating the use, through constructor calls to depth 4; by what the constructors do, not by their names). If every stored object locks itself nothing is required of the owner. Otherwise every call on the field whose body (under that configuration) mutates the object must run with a mutex of the owning object held exclusively — sync.Mutex.Lock or RWMutex.Lock; RLock does not count because two read-lock holders run concurrently — every call that only reads it with that mutex held in any mode, on every CFG path (owner not yet published: exempt), and one mutex must be common to all mutating sites. The pointer leaving the owner's methods (stored, returned, passed on, captured) or a construction that cannot be followed is Undecided. " +
 			"L-rlock — table-free contradiction check: enumerated are the accesses to every non-table, non-sync field of every module struct that has a sync.RWMutex field, and to package-level variables of packages that declare a package-level sync.RWMutex. An access that is a definite write (store, map update/delete, clear, copy-into, in-place element write, address passed to a callee whose body writes through it, or a call on the pointed-to object whose body mutates it outside a lock of its own) and executes with that owner's RWMutex held for reading while no lock at all is held exclusively (must-hold lockset incl. inferred entry locksets) is a violation: the read side admits several holders, so the section can run twice at once. Reads, atomics and not-classified callees under RLock are accepted. " +
 			"L-corpus — the in-memory corpus has no mutex of its own; the lock is abstracted to one token INDEX (Lock/RLock on *index.Index, on its mu field, or through an interface with Lock/Unlock/RLock/RUnlock such as index.Interface). Contract functions (callers must hold INDEX): every *index.Corpus method, every *index.LocationHelper method, the *index.Index methods of index.Interface, and search.Handler methods named *Locked. Enumerated: every site in non-contract module code that calls, goes, defers, invokes through an interface, or takes the function value of a contract function that (transitively) touches Corpus fields. Decided: INDEX is held at the site on every CFG path, or the enclosing function is only ever entered with INDEX held — every static call, function-value reference and possible interface dispatch of it in the module is itself under INDEX or in a function with that property (greatest fixpoint; a function nothing in the module refers to is an entry point and is not assumed locked). Stated assumptions: a function literal or goroutine created while INDEX is held runs while it is held (the join before the unlock is not decided); a function value is entered where it is created. " +
-			"NOT decided: absence of races on state that is neither in the guard table nor a field of an RWMutex-carrying struct / a lock-configurable object; unsynchronised containers that never had a lock of their own and sit in unguarded fields (container/list, bytes.Buffer, plain maps in structs without a table entry) when accessed with NO lock at all; mutation reached only through interface/dynamic calls or through callees using atomics/sync primitives (not classified); lock-configurable objects held by value, in locals, globals, maps or slices rather than in a struct field; path feasibility beyond constant bool flags (a mutating branch that cannot execute still counts); direct reads of Corpus fields from Index methods outside index.Interface (HasLegacySHA1, signerRefs); the R/W mode of the index lock around corpus mutation reached through L-corpus (L-rlock sees only statically resolved Corpus calls on Index.corpus); that goroutines started under the index lock are joined before it is released; VTA confirmation of dynamic call edges (not used); atomicity of check-then-act sequences, lost updates, deadlock freedom, linearizability against the reference map, any concrete schedule.",
+			"L-excl — an RWMutex that protects the directory tree of a storage rather than a struct field. Enumerated: every sync.RWMutex field (by value or by pointer) of a struct type declared under pkg/blobserver that is not the mutex of a guard-table entry; it is a directory lock when some directory-structure operation of its owner executes with it held (today files.Storage.dirLockMu). Filesystem calls are classified by a frozen table over the methods of files.VFS (checked against the interface's method set on every run; calls matched by type: invokes through VFS or an interface including it, static calls on implementers) and the os/robustio functions with the same effect: makes a directory (MkdirAll/Mkdir), creates an entry in a directory (TempFile/CreateTemp, Create/OpenFile/WriteFile/Rename-target of a path computed from it), removes a directory (RemoveDir always; Remove/RemoveAll/Rename-source when the path VALUE is a directory path: the same value is a directory argument elsewhere in the function, comes from a function whose results are used as directories, or is a parameter callers fill that way). A call is attributed to the storage object whose field holds the VFS, else to the receiver of the enclosing method; a helper that gets the VFS as a plain parameter is lifted to its call sites (depth 3); bodies of VFS implementers are the layer below the lock and not examined. Decided: (1) for every make-directory call and every call in the same function that creates an entry in that directory (same value, or a module callee that uses the parameter that way), the directory lock is in the must-hold lockset (R or W; entry locksets inferred through unexported wrappers) at both calls and no CFG path from the first to the second passes a release of it (drop-and-retake is a violation); (2) every directory-removing call holds the lock for WRITING at the call (a go statement starts with an empty lockset, the lock taken inside the spawned function counts). A removal under the read side only, or under no lock, is a violation: two read holders run concurrently, the rmdir can land between a receiver's MkdirAll and TempFile and the receive fails with ENOENT on a healthy store, which no sequential order of the calls produces. A make-directory call whose dependent call cannot be found in the same function, or an owner that cannot be named, is Undecided. " +
+			"NOT decided: for L-excl — that VFS implementers behave as the table says (rmdir semantics of RemoveDir, Remove never handed a directory by code the value criterion does not see); sequences that span functions (directory made in a callee, used by the caller); directory locks outside pkg/blobserver or that also guard tabled fields; whether the lock is the right object when several storages share one tree; liveness (writer starvation). Absence of races on state that is neither in the guard table nor a field of an RWMutex-carrying struct / a lock-configurable object; unsynchronised containers that never had a lock of their own and sit in unguarded fields (container/list, bytes.Buffer, plain maps in structs without a table entry) when accessed with NO lock at all; mutation reached only through interface/dynamic calls or through callees using atomics/sync primitives (not classified); lock-configurable objects held by value, in locals, globals, maps or slices rather than in a struct field; path feasibility beyond constant bool flags (a mutating branch that cannot execute still counts); direct reads of Corpus fields from Index methods outside index.Interface (HasLegacySHA1, signerRefs); the R/W mode of the index lock around corpus mutation reached through L-corpus (L-rlock sees only statically resolved Corpus calls on Index.corpus); that goroutines started under the index lock are joined before it is released; VTA confirmation of dynamic call edges (not used); atomicity of check-then-act sequences, lost updates, deadlock freedom, linearizability against the reference map, any concrete schedule.",
 		RuleDocs: map[string]string{
-			"L-guard":  "every access (per function × guarded field) of the guard table's fields in module code, incl. statically resolved calls on the object a guarded pointer field points to (mode from the callee's body: writes through its receiver outside its own exclusive lock ⇒ write): must-hold lockset contains the owning object's mutex (R for reads, W for writes), or the object is fresh, or the field has no post-construction writer",
-			"L-locked": "every static call site (and heap.* call for heap callbacks) of a lock-requiring function holds the named lock in the mode the callee needs, or the receiver is fresh",
-			"L-unsync": "every struct field holding a pointer to a lock-configurable object (own mutex skipped under a construction-only bool flag; configuration derived from the reaching constructors' bodies): one obligation per field (self-locking in every construction, or all sites locked by one common owner mutex) and, when some stored object does not lock itself, one per call site on the field: mutating calls (by body) hold a mutex of the owner exclusively — RLock is not enough — reading calls hold it in any mode",
-			"L-rlock":  "every function × field of an RWMutex-carrying module struct (non-table fields) or package-level variable next to a package-level RWMutex, with accesses that run under only the read side of that RWMutex and no exclusive lock: none of them is a definite write (store, map update/delete, in-place write, callee/method whose body writes through the field or the object it points to)",
+			"L-guard":   "every access (per function × guarded field) of the guard table's fields in module code, incl. statically resolved calls on the object a guarded pointer field points to (mode from the callee's body: writes through its receiver outside its own exclusive lock ⇒ write): must-hold lockset contains the owning object's mutex (R for reads, W for writes), or the object is fresh, or the field has no post-construction writer",
+			"L-locked":  "every static call site (and heap.* call for heap callbacks) of a lock-requiring function holds the named lock in the mode the callee needs, or the receiver is fresh",
+			"L-unsync":  "every struct field holding a pointer to a lock-configurable object (own mutex skipped under a construction-only bool flag; configuration derived from the reaching constructors' bodies): one obligation per field (self-locking in every construction, or all sites locked by one common owner mutex) and, when some stored object does not lock itself, one per call site on the field: mutating calls (by body) hold a mutex of the owner exclusively — RLock is not enough — reading calls hold it in any mode",
+			"L-rlock":   "every function × field of an RWMutex-carrying module struct (non-table fields) or package-level variable next to a package-level RWMutex, with accesses that run under only the read side of that RWMutex and no exclusive lock: none of them is a definite write (store, map update/delete, in-place write, callee/method whose body writes through the field or the object it points to)",
+			"L-excl":    "every RWMutex field of a pkg/blobserver struct type that guards no tabled struct field but is held around directory-structure calls (files.Storage.dirLockMu): one obligation for the classification table (all files.VFS methods classified), one per lock, one per (make-directory call, dependent create-in-that-directory call) pair — the lock is held (R or W) at both and not released on any path between them — and one per directory-removing call (VFS.RemoveDir; Remove/Rename/os.Remove* of a directory-valued path; through wrappers) — the lock is held for WRITING at the call; read side or no lock = 'directory removed while receivers may be between MkdirAll and TempFile'",
 			"L-pending": "C05's I-recent reported for C14: noteBlobIndexedLocked records every indexed blob in recentDone and queues every released dependant, MarkDone re-notes recently done dependencies before clearing recentDone, getNewPendingBlobIndex registers what it returns - the coordination that makes concurrent receives of a blob and its dependency converge to a sequentially explainable state",
-			"L-corpus": "every call / go / defer / interface invoke / function-value site, in non-contract code, of a corpus-touching contract function (*Corpus and *LocationHelper methods, index.Interface methods of *Index, search.Handler *Locked methods): the index lock is held at the site or the enclosing function is only ever entered with it held (all entry sites in the module, greatest fixpoint)",
+			"L-corpus":  "every call / go / defer / interface invoke / function-value site, in non-contract code, of a corpus-touching contract function (*Corpus and *LocationHelper methods, index.Interface methods of *Index, search.Handler *Locked methods): the index lock is held at the site or the enclosing function is only ever entered with it held (all entry sites in the module, greatest fixpoint)",
 		},
 		Run:       runC14,
 		DesignRef: "DESIGN.md §4 C14",
-		Technique: "static analysis: must-hold lockset dataflow over go/ssa with inter-procedural entry locksets (meet over static callers, entry-site fixpoint for the index lock), type-resolved guard table, freshness (escape) exemption, body-derived receiver-access summaries (transitive writes through a parameter outside the callee's own exclusive lock, on a CFG pruned by construction-time configuration flags and constant bool arguments), constructor-reaching configuration of lock-configurable objects",
-		LevelText: "Decides lock discipline only: listed guarded fields are accessed, lock-requiring functions are called, and corpus-reading methods are reached only with the owning mutex held on every CFG path; objects configured not to lock themselves are mutated only under an exclusive lock of their owner; nothing is definitely written while only the read side of its struct's (or package's) RWMutex is held; the index's pending-blob bookkeeping (recentDone/readyReindex) releases a dependant whose dependency was indexed concurrently. Does not decide races on other state, unclassified (dynamic / atomics-based) callees, atomicity, lost updates or linearizability.",
+		Technique: "static analysis: must-hold lockset dataflow over go/ssa with inter-procedural entry locksets (meet over static callers, entry-site fixpoint for the index lock), type-resolved guard table, freshness (escape) exemption, body-derived receiver-access summaries (transitive writes through a parameter outside the callee's own exclusive lock, on a CFG pruned by construction-time configuration flags and constant bool arguments), constructor-reaching configuration of lock-configurable objects; for resource locks: type-resolved classification of filesystem calls (files.VFS method table checked against the interface), value-based directory-path classification, lock-mode check at directory-removing calls and a release-free-path exploration between a make-directory call and its dependent create call",
+		LevelText: "Decides lock discipline only: listed guarded fields are accessed, lock-requiring functions are called, and corpus-reading methods are reached only with the owning mutex held on every CFG path; objects configured not to lock themselves are mutated only under an exclusive lock of their owner; nothing is definitely written while only the read side of its struct's (or package's) RWMutex is held; the index's pending-blob bookkeeping (recentDone/readyReindex) releases a dependant whose dependency was indexed concurrently; the files storage's directory lock is held without a gap from making a shard directory to creating the temp file in it and exclusively around every directory removal (so a removal cannot make a concurrent receive fail). Does not decide races on other state, unclassified (dynamic / atomics-based) callees, atomicity, lost updates or linearizability.",
 	})
 }
 
@@ -710,6 +712,9 @@ func (cx *c14Ctx) toCallee(c CallSite, callee *ssa.Function, held LockSet) LockS
 			}
 			if strings.HasPrefix(hp, "&"+ap+".") {
 				out["&"+prm.Name()+hp[len("&"+ap):]] = mode
+			} else if strings.HasPrefix(hp, ap+".") {
+				// a mutex held through a pointer field (`x.mu *sync.RWMutex`): value path "x.mu"
+				out[prm.Name()+hp[len(ap):]] = mode
 			}
 		}
 	}
@@ -858,15 +863,17 @@ func runC14(p *Program, r *Reporter) {
 	sm := c14NewSumm(p, cx)
 	c14InstallHooks(sm)
 	unsyncAccs, rlAccs, extraRoots := c14ScanOwned(p, sm, guards)
-	cx.extraRoots = extraRoots
+	excl, exclRoots := c14ExclScan(p, guards)
+	cx.extraRoots = append(extraRoots, exclRoots...)
 	c14RuleGuardAndLocked(p, r, cx, guards)
 	t1 := time.Now()
 	c14RuleUnsync(p, r, cx, sm, unsyncAccs)
 	c14RuleRLock(p, r, cx, rlAccs)
+	c14RuleExcl(p, r, cx, excl)
 	t2 := time.Now()
 	c14RuleCorpus(p, r, cx)
 	c14RulePendingShared(p, r)
-	r.Note("rule time after loading: L-guard+L-locked %.2fs, L-unsync+L-rlock %.2fs, L-corpus %.2fs", t1.Sub(t0).Seconds(), t2.Sub(t1).Seconds(), time.Since(t2).Seconds())
+	r.Note("rule time after loading: L-guard+L-locked %.2fs, L-unsync+L-rlock+L-excl %.2fs, L-corpus %.2fs", t1.Sub(t0).Seconds(), t2.Sub(t1).Seconds(), time.Since(t2).Seconds())
 }
 
 // c14RulePendingShared is C05's I-recent reported under C14 as L-pending (like
@@ -3410,4 +3417,866 @@ func c14RuleRLock(p *Program, r *Reporter, cx *c14Ctx, accs []c14OwnedAccess) {
 	}
 	r.Analysed("package_level_rwmutexes", nGlob)
 	r.Floor("L-rlock", 25)
+}
+
+// ---------------------------------------------------------------------------
+// L-excl: an RWMutex that protects the DIRECTORY TREE of a storage (an external
+// resource, not a struct field).
+//
+// The read side is for operations that rely on the tree's structure staying
+// put (make a directory, then create an entry in it); the write side is for
+// operations that change the structure (remove a directory). Two read holders
+// run concurrently, so a directory removal that holds only the read side (or no
+// lock) can land between a receiver's MkdirAll and its TempFile: the receive
+// fails with ENOENT on a healthy store, a result no sequential order of the
+// calls produces.
+//
+// Nothing is named: resource locks, dependent sequences and destroying calls
+// are derived from the code. The only frozen part is the classification of the
+// filesystem operations (methods of files.VFS, resolved on the interface, and
+// the os / robustio functions behind them), one reason each.
+
+type c14FsKind int
+
+const (
+	c14FsNeutral    c14FsKind = iota // does not create or remove directories and does not need one to be there afterwards
+	c14FsMkdir                       // establishes the directory named by its path argument
+	c14FsCreateIn                    // creates an entry in the directory named by its dir argument: fails if that directory is gone
+	c14FsCreatePath                  // creates/opens the entry named by its path argument: dependent when the path is computed from an established directory
+	c14FsRmdir                       // removes the directory named by its path argument
+	c14FsRemovePath                  // removes whatever the path names: destroys structure when the path is a directory path
+	c14FsRenamePath                  // renames old to new: destroys structure when old is a directory path; creates an entry at new
+	c14FsDirRead                     // lists a directory: its argument is a directory path (used for classification only)
+)
+
+type c14FsEntry struct {
+	kind   c14FsKind
+	arg    int // index of the path/dir argument, receiver not counted
+	arg2   int // Rename: new name
+	reason string
+}
+
+// c14VFSTable classifies every method of files.VFS (checked against the
+// interface's method set on every run: an unclassified method is Undecided, a
+// table entry without method is an unresolved anchor).
+var c14VFSTable = map[string]c14FsEntry{
+	"MkdirAll":     {kind: c14FsMkdir, arg: 0, reason: "creates the directory (and parents): what a following TempFile into it relies on"},
+	"TempFile":     {kind: c14FsCreateIn, arg: 0, reason: "`should behave like os.CreateTemp`: creates a file IN dir and fails with ENOENT when dir is gone"},
+	"RemoveDir":    {kind: c14FsRmdir, arg: 0, reason: "removes a directory: the one operation of the interface whose purpose is to change the tree's structure"},
+	"Remove":       {kind: c14FsRemovePath, arg: 0, reason: "`files, not directories` by the interface's contract: structure-neutral unless it is handed a directory path"},
+	"Rename":       {kind: c14FsRenamePath, arg: 0, arg2: 1, reason: "POSIX rename: moves a directory (and everything below it) when oldname is one; otherwise replaces one file entry"},
+	"ReadDirNames": {kind: c14FsDirRead, arg: 0, reason: "lists a directory; read-only"},
+	"Stat":         {kind: c14FsNeutral, reason: "read-only"},
+	"Lstat":        {kind: c14FsNeutral, reason: "read-only"},
+	"Open":         {kind: c14FsNeutral, reason: "opens an existing file for reading"},
+}
+
+// c14OSTable: the os / robustio functions with the same effects, for storage
+// code that bypasses the VFS.
+var c14OSTable = map[string]map[string]c14FsEntry{
+	"os": {
+		"MkdirAll":   {kind: c14FsMkdir, arg: 0, reason: "creates the directory"},
+		"Mkdir":      {kind: c14FsMkdir, arg: 0, reason: "creates the directory"},
+		"CreateTemp": {kind: c14FsCreateIn, arg: 0, reason: "creates a file in dir"},
+		"MkdirTemp":  {kind: c14FsCreateIn, arg: 0, reason: "creates a directory in dir"},
+		"Create":     {kind: c14FsCreatePath, arg: 0, reason: "creates the named file: its directory must exist"},
+		"OpenFile":   {kind: c14FsCreatePath, arg: 0, reason: "opens/creates the named file: its directory must exist"},
+		"WriteFile":  {kind: c14FsCreatePath, arg: 0, reason: "creates the named file: its directory must exist"},
+		"Remove":     {kind: c14FsRemovePath, arg: 0, reason: "removes a file or an empty directory"},
+		"RemoveAll":  {kind: c14FsRemovePath, arg: 0, reason: "removes a file or a whole tree"},
+		"Rename":     {kind: c14FsRenamePath, arg: 0, arg2: 1, reason: "renames a file or a directory"},
+		"ReadDir":    {kind: c14FsDirRead, arg: 0, reason: "lists a directory"},
+	},
+	modPrefix + "thirdparty/go/robustio": {
+		"RemoveAll": {kind: c14FsRemovePath, arg: 0, reason: "os.RemoveAll with retries"},
+		"Rename":    {kind: c14FsRenamePath, arg: 0, arg2: 1, reason: "os.Rename with retries"},
+	},
+}
+
+// A c14FsOp is one classified filesystem call.
+type c14FsOp struct {
+	kind  c14FsKind
+	name  string    // "VFS.RemoveDir", "os.Remove"
+	vfs   ssa.Value // the VFS the call goes to (nil for os functions)
+	path  ssa.Value // dir/path argument (Rename: oldname); nil when lost in a wrapper
+	path2 ssa.Value // Rename: newname
+}
+
+// A c14ExclSite is a filesystem call attributed to a storage object.
+type c14ExclSite struct {
+	c        CallSite // where the lockset is evaluated (the wrapper's call site when lifted)
+	op       c14FsOp
+	T        *types.Named // owning storage type
+	owner    string       // access path of the owning object in c.Fn's terms
+	via      string       // "" or the wrapper the operation sits in
+	viaLocks bool         // that wrapper performs lock operations of its own
+}
+
+type c14ExclLock struct {
+	T    *types.Named
+	name string
+	ptr  bool // the field is a *sync.RWMutex
+}
+
+func (l c14ExclLock) path(owner string) string {
+	if l.ptr {
+		return owner + "." + l.name
+	}
+	return "&" + owner + "." + l.name
+}
+
+func (l c14ExclLock) key() string {
+	return RelPkg(l.T.Obj().Pkg()) + "." + l.T.Obj().Name() + "." + l.name
+}
+
+type c14ExclState struct {
+	p         *Program
+	vfs       *types.Interface
+	vfsNamed  *types.Named
+	cands     []c14ExclLock
+	candT     map[*types.Named]bool
+	sites     []c14ExclSite
+	unowned   []c14ExclSite // definite directory removals whose owner cannot be named
+	unclass   []string      // VFS methods missing from the table
+	producers map[*ssa.Function]bool
+	nCalls    int
+}
+
+// c14ExclScan enumerates the candidate locks (RWMutex fields, by value or by
+// pointer, of struct types declared under pkg/blobserver that are not the
+// mutex of a guard-table entry) and the classified filesystem calls of their
+// packages. It returns the functions whose entry locksets must be inferred.
+func c14ExclScan(p *Program, guards map[*types.Named]map[int]*c14FieldSpec) (*c14ExclState, []*ssa.Function) {
+	st := &c14ExclState{p: p, candT: map[*types.Named]bool{}, producers: map[*ssa.Function]bool{}}
+	st.vfsNamed = p.NamedType("pkg/blobserver/files", "VFS")
+	st.vfs = p.Iface("pkg/blobserver/files", "VFS")
+	// table agreement with the interface
+	have := map[string]bool{}
+	for i := 0; i < st.vfs.NumMethods(); i++ {
+		m := st.vfs.Method(i)
+		have[m.Name()] = true
+		e, ok := c14VFSTable[m.Name()]
+		if !ok {
+			st.unclass = append(st.unclass, m.Name())
+			continue
+		}
+		if e.kind == c14FsNeutral {
+			continue
+		}
+		sig := m.Type().(*types.Signature)
+		for _, ai := range []int{e.arg, e.arg2} {
+			if ai >= sig.Params().Len() || !types.Identical(sig.Params().At(ai).Type(), types.Typ[types.String]) {
+				brokenf("anchor unresolved: files.VFS.%s parameter %d is not a string path", m.Name(), ai)
+			}
+		}
+	}
+	for name := range c14VFSTable {
+		if !have[name] {
+			brokenf("anchor unresolved: files.VFS has no method %s (L-excl classification table)", name)
+		}
+	}
+	sort.Strings(st.unclass)
+
+	// candidate locks
+	var paths []string
+	for path := range p.ByPath {
+		rel := strings.TrimPrefix(path, modPrefix)
+		if strings.HasPrefix(path, modPrefix) && (rel == "pkg/blobserver" || strings.HasPrefix(rel, "pkg/blobserver/")) && !IsTestSupportPkg(rel) {
+			paths = append(paths, path)
+		}
+	}
+	sort.Strings(paths)
+	pkgs := map[string]bool{}
+	for _, path := range paths {
+		pk := p.ByPath[path]
+		if pk.Types == nil {
+			continue
+		}
+		sc := pk.Types.Scope()
+		for _, name := range sc.Names() {
+			tn, ok := sc.Lookup(name).(*types.TypeName)
+			if !ok || tn.IsAlias() {
+				continue
+			}
+			n, ok := tn.Type().(*types.Named)
+			if !ok || n.TypeParams().Len() > 0 {
+				continue
+			}
+			stt, ok := n.Underlying().(*types.Struct)
+			if !ok {
+				continue
+			}
+			for i := 0; i < stt.NumFields(); i++ {
+				f := stt.Field(i)
+				if !IsNamed(f.Type(), "sync", "RWMutex") {
+					continue
+				}
+				tabled := false
+				for _, fs := range guards[n] {
+					if fs.g.mu == f.Name() {
+						tabled = true
+					}
+				}
+				if tabled {
+					continue // guards struct fields: L-guard's business
+				}
+				_, ptr := f.Type().(*types.Pointer)
+				st.cands = append(st.cands, c14ExclLock{T: n, name: f.Name(), ptr: ptr})
+				st.candT[n] = true
+				pkgs[strings.TrimPrefix(path, modPrefix)] = true
+			}
+		}
+	}
+
+	// classified calls of those packages
+	var rels []string
+	for rel := range pkgs {
+		rels = append(rels, rel)
+	}
+	sort.Strings(rels)
+	seenRoot := map[*ssa.Function]bool{}
+	var roots []*ssa.Function
+	for _, rel := range rels {
+		fns := p.FuncsIn(rel)
+		// functions whose results are used as directory paths somewhere in the package
+		for _, fn := range fns {
+			if st.lowerLayer(fn) {
+				continue
+			}
+			for _, c := range CallsIn(fn, false) {
+				if op, ok := st.classify(c); ok && c14FsDirPosition(op.kind) && op.path != nil {
+					if call, ok := originValue(op.path).(*ssa.Call); ok {
+						if g := call.Call.StaticCallee(); g != nil && InModule(g) {
+							st.producers[g] = true
+						}
+					}
+				}
+			}
+		}
+		for _, fn := range fns {
+			if st.lowerLayer(fn) {
+				continue
+			}
+			for _, c := range CallsIn(fn, false) {
+				op, ok := st.classify(c)
+				if !ok {
+					continue
+				}
+				st.nCalls++
+				for _, s := range st.attribute(c14ExclSite{c: c, op: op}, 0) {
+					if s.T == nil {
+						if st.destroys(s) {
+							st.unowned = append(st.unowned, s)
+						}
+						continue
+					}
+					st.sites = append(st.sites, s)
+					if top := TopFunc(s.c.Fn); !seenRoot[top] {
+						seenRoot[top] = true
+						roots = append(roots, top)
+					}
+				}
+			}
+		}
+	}
+	return st, roots
+}
+
+func c14FsDirPosition(k c14FsKind) bool {
+	return k == c14FsMkdir || k == c14FsCreateIn || k == c14FsRmdir || k == c14FsDirRead
+}
+
+// lowerLayer: fn belongs to an implementation of files.VFS — the layer the
+// table describes, below the lock.
+func (st *c14ExclState) lowerLayer(fn *ssa.Function) bool {
+	top := TopFunc(fn)
+	recv := top.Signature.Recv()
+	if recv == nil {
+		return false
+	}
+	t := recv.Type()
+	return types.Implements(t, st.vfs) || types.Implements(types.NewPointer(t), st.vfs)
+}
+
+// classify recognises a filesystem call: an invoke of a files.VFS method
+// (through VFS or an interface that includes it), a static call of such a
+// method on an implementer, or one of the os / robustio functions.
+func (st *c14ExclState) classify(c CallSite) (c14FsOp, bool) {
+	cc := c.Common()
+	args := c.Args()
+	mk := func(prefix, name string, e c14FsEntry, off int, vfs ssa.Value) (c14FsOp, bool) {
+		op := c14FsOp{kind: e.kind, name: prefix + "." + name, vfs: vfs}
+		if e.kind != c14FsNeutral {
+			if e.arg+off < len(args) {
+				op.path = args[e.arg+off]
+			}
+			if e.kind == c14FsRenamePath && e.arg2+off < len(args) {
+				op.path2 = args[e.arg2+off]
+			}
+		}
+		return op, true
+	}
+	if cc.IsInvoke() {
+		e, ok := c14VFSTable[cc.Method.Name()]
+		if !ok || !types.Implements(cc.Value.Type(), st.vfs) {
+			return c14FsOp{}, false
+		}
+		return mk("VFS", cc.Method.Name(), e, 1, cc.Value)
+	}
+	f := cc.StaticCallee()
+	if f == nil {
+		return c14FsOp{}, false
+	}
+	if recv := f.Signature.Recv(); recv != nil {
+		e, ok := c14VFSTable[f.Name()]
+		if !ok || len(args) == 0 {
+			return c14FsOp{}, false
+		}
+		if t := recv.Type(); types.Implements(t, st.vfs) || types.Implements(types.NewPointer(t), st.vfs) {
+			return mk("VFS", f.Name(), e, 1, args[0])
+		}
+		return c14FsOp{}, false
+	}
+	var pkg *types.Package
+	if f.Pkg != nil {
+		pkg = f.Pkg.Pkg
+	} else if f.Object() != nil {
+		pkg = f.Object().Pkg()
+	}
+	if pkg == nil {
+		return c14FsOp{}, false
+	}
+	if e, ok := c14OSTable[pkg.Path()][f.Name()]; ok {
+		return mk(pkg.Name(), f.Name(), e, 0, nil)
+	}
+	return c14FsOp{}, false
+}
+
+// ownerOfVFS: v is the value of field f of an object X of a candidate type:
+// returns the type and X's access path.
+func (st *c14ExclState) ownerOfVFS(v ssa.Value) (*types.Named, string) {
+	if v == nil {
+		return nil, ""
+	}
+	ld, ok := originValue(v).(*ssa.UnOp)
+	if !ok || ld.Op != token.MUL {
+		return nil, ""
+	}
+	fa, ok := ld.X.(*ssa.FieldAddr)
+	if !ok {
+		return nil, ""
+	}
+	n := NamedOf(fa.X.Type().Underlying().(*types.Pointer).Elem())
+	if n == nil || !st.candT[n] {
+		return nil, ""
+	}
+	return n, strings.TrimPrefix(AccessPath(fa.X), "&")
+}
+
+// attribute names the storage object a filesystem call works for: the object
+// whose field holds the VFS, else the receiver of the enclosing method; a call
+// on a VFS that is a plain parameter is lifted to the call sites of the
+// enclosing function (bounded).
+func (st *c14ExclState) attribute(s c14ExclSite, depth int) []c14ExclSite {
+	if T, owner := st.ownerOfVFS(s.op.vfs); T != nil {
+		s.T, s.owner = T, owner
+		return []c14ExclSite{s}
+	}
+	top := TopFunc(s.c.Fn)
+	if recv := top.Signature.Recv(); recv != nil && len(top.Params) > 0 {
+		if n := NamedOf(recv.Type()); n != nil && st.candT[n] {
+			if _, isPtr := recv.Type().(*types.Pointer); isPtr {
+				s.T, s.owner = n, top.Params[0].Name()
+				return []c14ExclSite{s}
+			}
+		}
+	}
+	if s.op.vfs == nil || depth >= 3 {
+		return []c14ExclSite{s}
+	}
+	prm, ok := originValue(s.op.vfs).(*ssa.Parameter)
+	if !ok || prm.Parent() != s.c.Fn {
+		return []c14ExclSite{s}
+	}
+	fn := s.c.Fn
+	idx := func(v ssa.Value) int {
+		if v == nil {
+			return -1
+		}
+		if q, ok := originValue(v).(*ssa.Parameter); ok && q.Parent() == fn {
+			for i, x := range fn.Params {
+				if x == q {
+					return i
+				}
+			}
+		}
+		return -1
+	}
+	vi, pi, pi2 := idx(prm), idx(s.op.path), idx(s.op.path2)
+	callers := st.p.StaticCallers(fn)
+	if vi < 0 || len(callers) == 0 || len(st.p.FuncValueUses(fn)) > 0 {
+		return []c14ExclSite{s}
+	}
+	locks := s.viaLocks
+	for _, c := range CallsIn(fn, true) {
+		if _, _, ok := lockEffect(c); ok {
+			locks = true
+		}
+	}
+	var out []c14ExclSite
+	for _, cs := range callers {
+		args := cs.Args()
+		if vi >= len(args) {
+			continue
+		}
+		ns := c14ExclSite{c: cs, op: c14FsOp{kind: s.op.kind, name: s.op.name, vfs: args[vi]}, via: FuncKey(fn), viaLocks: locks}
+		if s.via != "" {
+			ns.via = s.via + " <- " + ns.via
+		}
+		if pi >= 0 && pi < len(args) {
+			ns.op.path = args[pi]
+		}
+		if pi2 >= 0 && pi2 < len(args) {
+			ns.op.path2 = args[pi2]
+		}
+		out = append(out, st.attribute(ns, depth+1)...)
+	}
+	return out
+}
+
+// sameValue: a and b denote the same run-time value as far as a local,
+// structural comparison can tell (same origin, or calls of the same module
+// function with pairwise same arguments).
+func c14ExclSameValue(a, b ssa.Value, depth int) bool {
+	if a == nil || b == nil {
+		return false
+	}
+	if sameOrigin(a, b) {
+		return true
+	}
+	if depth > 2 {
+		return false
+	}
+	ca, ok1 := originValue(a).(*ssa.Call)
+	cb, ok2 := originValue(b).(*ssa.Call)
+	if !ok1 || !ok2 {
+		return false
+	}
+	fa, fb := ca.Call.StaticCallee(), cb.Call.StaticCallee()
+	if fa == nil || fa != fb || !InModule(fa) || len(ca.Call.Args) != len(cb.Call.Args) {
+		return false
+	}
+	for i := range ca.Call.Args {
+		x, y := ca.Call.Args[i], cb.Call.Args[i]
+		if kx, ok := x.(*ssa.Const); ok {
+			if ky, ok := y.(*ssa.Const); ok && kx.String() == ky.String() {
+				continue
+			}
+			return false
+		}
+		if !c14ExclSameValue(x, y, depth+1) {
+			return false
+		}
+	}
+	return true
+}
+
+// dirValued: v is a directory path — the same value is handed to a
+// directory-position parameter (MkdirAll, TempFile's dir, RemoveDir,
+// ReadDirNames) in the same function, it is the result of a function whose
+// results are used that way in the package, or it is a parameter that callers
+// fill with such a value.
+func (st *c14ExclState) dirValued(v ssa.Value, fn *ssa.Function, depth int) (bool, string) {
+	if v == nil {
+		return false, ""
+	}
+	var hit string
+	var walk func(f *ssa.Function)
+	walk = func(f *ssa.Function) {
+		for _, c := range CallsIn(f, false) {
+			if op, ok := st.classify(c); ok && c14FsDirPosition(op.kind) && c14ExclSameValue(v, op.path, 0) && hit == "" {
+				hit = "the same value is the directory argument of " + op.name + " in " + FuncKey(f)
+			}
+		}
+		for _, a := range f.AnonFuncs {
+			walk(a)
+		}
+	}
+	walk(TopFunc(fn))
+	if hit != "" {
+		return true, hit
+	}
+	o := originValue(v)
+	if call, ok := o.(*ssa.Call); ok {
+		if g := call.Call.StaticCallee(); g != nil && st.producers[g] {
+			return true, "result of " + FuncKey(g) + ", whose results are used as directory paths"
+		}
+	}
+	if prm, ok := o.(*ssa.Parameter); ok && depth < 2 {
+		pf := prm.Parent()
+		for i, x := range pf.Params {
+			if x != prm {
+				continue
+			}
+			for _, cs := range st.p.StaticCallers(pf) {
+				if args := cs.Args(); i < len(args) {
+					if ok, why := st.dirValued(args[i], cs.Fn, depth+1); ok {
+						return true, "parameter " + prm.Name() + ", filled by " + FuncKey(cs.Fn) + " where " + why
+					}
+				}
+			}
+		}
+	}
+	return false, ""
+}
+
+// destroys: the call removes (or moves away) a directory.
+func (st *c14ExclState) destroys(s c14ExclSite) bool {
+	ok, _ := st.destroysWhy(s)
+	return ok
+}
+
+func (st *c14ExclState) destroysWhy(s c14ExclSite) (bool, string) {
+	switch s.op.kind {
+	case c14FsRmdir:
+		return true, "removes a directory"
+	case c14FsRemovePath, c14FsRenamePath:
+		if ok, why := st.dirValued(s.op.path, s.c.Fn, 0); ok {
+			return true, "its path argument is a directory path (" + why + ")"
+		}
+	}
+	return false, ""
+}
+
+// paramCreates: fn uses its idx-th parameter as the directory of a creating
+// call (possibly through further module functions).
+func (st *c14ExclState) paramCreates(fn *ssa.Function, idx, depth int) bool {
+	if fn == nil || len(fn.Blocks) == 0 || idx >= len(fn.Params) || depth > 3 || !InModule(fn) {
+		return false
+	}
+	prm := fn.Params[idx]
+	for _, c := range CallsIn(fn, true) {
+		if op, ok := st.classify(c); ok {
+			if st.dependsOnDir(op, prm) {
+				return true
+			}
+			continue
+		}
+		if g := c.Callee(); g != nil && g != fn {
+			for j, a := range c.Args() {
+				if sameOrigin(a, prm) && st.paramCreates(g, j, depth+1) {
+					return true
+				}
+			}
+		}
+	}
+	return false
+}
+
+// dependsOnDir: the operation creates an entry in / below directory value d.
+func (st *c14ExclState) dependsOnDir(op c14FsOp, d ssa.Value) bool {
+	od := originValue(d)
+	derived := func(v ssa.Value) bool {
+		return v != nil && (c14ExclSameValue(v, d, 0) || DependsOn(v, func(x ssa.Value) bool { return x == od || x == d }))
+	}
+	switch op.kind {
+	case c14FsCreateIn:
+		return derived(op.path)
+	case c14FsCreatePath:
+		return derived(op.path)
+	case c14FsRenamePath:
+		return derived(op.path2)
+	}
+	return false
+}
+
+// c14ExclBroken explores the CFG from C (exclusive) and reports a release of
+// lock path L that lies on a path from C to U which does not re-execute C.
+func c14ExclBroken(C, U ssa.Instruction, L string) ssa.Instruction {
+	type key struct {
+		b      *ssa.BasicBlock
+		broken bool
+	}
+	fn := C.Parent()
+	seen := map[key]bool{}
+	var found ssa.Instruction
+	var walk func(b *ssa.BasicBlock, from int, rel ssa.Instruction)
+	walk = func(b *ssa.BasicBlock, from int, rel ssa.Instruction) {
+		for i := from; i < len(b.Instrs) && found == nil; i++ {
+			in := b.Instrs[i]
+			if in == C {
+				return
+			}
+			if in == U && rel != nil {
+				found = rel
+				return
+			}
+			ci, ok := in.(ssa.CallInstruction)
+			if !ok {
+				continue
+			}
+			c := CallSite{fn, ci}
+			if c.IsDefer() || c.IsGo() {
+				continue
+			}
+			if op, path, ok := lockEffect(c); ok && path == L && (op == "Unlock" || op == "RUnlock") && rel == nil {
+				rel = in
+			}
+		}
+		if found != nil {
+			return
+		}
+		for _, s := range b.Succs {
+			k := key{s, rel != nil}
+			if !seen[k] {
+				seen[k] = true
+				walk(s, 0, rel)
+			}
+		}
+	}
+	walk(C.Block(), instrIndex(C)+1, nil)
+	return found
+}
+
+func c14RuleExcl(p *Program, r *Reporter, cx *c14Ctx, st *c14ExclState) {
+	const rule = "L-excl"
+	vfsKey := "pkg/blobserver/files.VFS#classification"
+	vfsSite := p.Pos(st.vfsNamed.Obj().Pos())
+	if len(st.unclass) > 0 {
+		r.Undecided(rule, vfsKey, vfsSite, "files.VFS has method(s) the classification table does not cover: "+strings.Join(st.unclass, ", ")+" — does it create, rely on or remove directories?")
+	} else {
+		var rows []string
+		for name, e := range c14VFSTable {
+			rows = append(rows, name+": "+e.reason)
+		}
+		sort.Strings(rows)
+		r.OKTable(rule, vfsKey, vfsSite, fmt.Sprintf("all %d methods of files.VFS are classified — %s", st.vfs.NumMethods(), strings.Join(rows, "; ")))
+	}
+	lockAt := func(s c14ExclSite) LockSet {
+		if s.c.IsGo() {
+			return LockSet{}
+		}
+		li := cx.lockInfo(TopFunc(s.c.Fn))
+		if d, ok := s.c.Instr.(*ssa.Defer); ok {
+			return li.atExits(s.c.Fn, d)
+		}
+		return li.HeldAt(s.c.Instr)
+	}
+	opRelevant := func(s c14ExclSite) bool {
+		switch s.op.kind {
+		case c14FsMkdir, c14FsCreateIn, c14FsRmdir:
+			return true
+		}
+		return st.destroys(s)
+	}
+	named := func(path string) bool { return !strings.Contains(path, "?") }
+
+	// which candidate locks are directory locks: some structure operation of their owner runs under them
+	nRes := 0
+	for _, lk := range st.cands {
+		var under []string
+		var mine []c14ExclSite
+		for _, s := range st.sites {
+			if s.T != lk.T {
+				continue
+			}
+			mine = append(mine, s)
+			if !opRelevant(s) || !named(s.owner) {
+				continue
+			}
+			if _, ok := lockAt(s)[lk.path(s.owner)]; ok {
+				under = append(under, s.op.name+" in "+FuncKey(s.c.Fn))
+			}
+		}
+		if len(under) == 0 {
+			continue // guards something this rule knows nothing about
+		}
+		nRes++
+		resKey := lk.key() + "#resource"
+		resSite := p.Pos(lk.T.Obj().Pos())
+
+		// (1) dependent sequences
+		type seq struct {
+			c     c14ExclSite
+			ok    bool
+			descr string
+		}
+		var seqs []seq
+		nBad := 0
+		count := map[string]int{}
+		uniq := func(k string) string {
+			count[k]++
+			if count[k] > 1 {
+				return fmt.Sprintf("%s#%d", k, count[k])
+			}
+			return k
+		}
+		for _, C := range mine {
+			if C.op.kind != c14FsMkdir {
+				continue
+			}
+			fn := C.c.Fn
+			site := p.Pos(C.c.Pos())
+			base := FuncKey(fn) + "#sequence:" + C.op.name
+			if C.via != "" {
+				r.Undecided(rule, uniq(base+"(via "+C.via+")"), site, "the directory is created inside "+C.via+", which receives the VFS as a plain parameter: the sequence that relies on it is not followed")
+				nBad++
+				continue
+			}
+			if !named(C.owner) {
+				r.Undecided(rule, uniq(base), site, "cannot name the storage object the call works for ("+C.owner+")")
+				nBad++
+				continue
+			}
+			L := lk.path(C.owner)
+			// dependent calls in the same function
+			type dep struct {
+				in   ssa.CallInstruction
+				name string
+			}
+			var deps []dep
+			var inLit []string
+			var scan func(f *ssa.Function)
+			scan = func(f *ssa.Function) {
+				for _, u := range CallsIn(f, false) {
+					if u.Instr == C.c.Instr {
+						continue
+					}
+					name := ""
+					if op, ok := st.classify(u); ok {
+						if st.dependsOnDir(op, C.op.path) {
+							name = op.name
+						}
+					} else if g := u.Callee(); g != nil && InModule(g) {
+						for j, a := range u.Args() {
+							if c14ExclSameValue(a, C.op.path, 0) && st.paramCreates(g, j, 0) {
+								name = FuncKey(g)
+							}
+						}
+					}
+					if name == "" {
+						continue
+					}
+					if f != fn {
+						inLit = append(inLit, name+" in "+FuncKey(f))
+						continue
+					}
+					deps = append(deps, dep{u.Instr, name})
+				}
+				for _, a := range f.AnonFuncs {
+					scan(a)
+				}
+			}
+			scan(fn)
+			li := cx.lockInfo(TopFunc(fn))
+			heldC := lockAt(C)
+			if len(deps) == 0 {
+				why := "no call in this function creates an entry in the directory it makes"
+				if len(inLit) > 0 {
+					why = "the call(s) that create an entry in the directory sit in function literals (" + strings.Join(inLit, ", ") + ")"
+				}
+				r.Undecided(rule, uniq(base), site, why+": the extent of the sequence that relies on the directory cannot be delimited (held at the call: "+heldC.String()+")")
+				nBad++
+				continue
+			}
+			for _, d := range deps {
+				key := uniq(base + "->" + d.name)
+				dsite := p.Pos(CallSite{fn, d.in}.Pos())
+				ctxt := fmt.Sprintf("%s … %s in %s (entry lockset %s)", C.op.name, d.name, FuncKey(fn), c14EntryDesc(cx, TopFunc(fn)))
+				sq := seq{c: C, descr: ctxt}
+				_, atC := heldC[L]
+				var heldU LockSet
+				if dd, ok := d.in.(*ssa.Defer); ok {
+					heldU = li.atExits(fn, dd)
+				} else if _, isGo := d.in.(*ssa.Go); isGo {
+					heldU = LockSet{}
+				} else {
+					heldU = li.HeldAt(d.in)
+				}
+				_, atU := heldU[L]
+				switch {
+				case !atC:
+					r.Violation(rule, key, site, fmt.Sprintf("%s runs without %s held (held: %s): a directory removal (which takes the write side) can run between it and %s at %s, which then fails although the store is healthy", C.op.name, L, heldC, d.name, dsite))
+				case !atU:
+					r.Violation(rule, key, dsite, fmt.Sprintf("%s runs without %s held (held: %s) although it relies on the directory made by %s at %s: the directory can be removed in between", d.name, L, heldU, C.op.name, site))
+				default:
+					if rel := c14ExclBroken(C.c.Instr, d.in, L); rel != nil {
+						r.Violation(rule, key, p.Pos(c14InstrPos(rel)), fmt.Sprintf("%s is released at %s between %s (%s) and %s (%s): holding it again later does not help, a directory removal can run in the gap and %s fails with 'no such file or directory' on a healthy store", L, p.Pos(c14InstrPos(rel)), C.op.name, site, d.name, dsite, d.name))
+					} else {
+						sq.ok = true
+						r.OK(rule, key, site, fmt.Sprintf("%s held (%c) from %s through %s at %s on every path, no release in between", L, heldU[L], C.op.name, d.name, dsite))
+					}
+				}
+				if !sq.ok {
+					nBad++
+				}
+				seqs = append(seqs, sq)
+			}
+		}
+
+		// (2) structure-destroying calls need the write side
+		nDestroy := 0
+		for _, D := range mine {
+			isD, whyD := st.destroysWhy(D)
+			if !isD {
+				continue
+			}
+			nDestroy++
+			key := uniq(FuncKey(D.c.Fn) + "#destroy:" + D.op.name)
+			site := p.Pos(D.c.Pos())
+			via := ""
+			if D.via != "" {
+				via = " (performed inside " + D.via + ")"
+			}
+			if !named(D.owner) {
+				r.Undecided(rule, key, site, "cannot name the storage object the call works for ("+D.owner+")")
+				nBad++
+				continue
+			}
+			if len(seqs) == 0 && nBad == 0 {
+				r.OKTable(rule, key, site, D.op.name+via+" "+whyD+"; no sequence in the package relies on a directory it has just made, so there is nothing to exclude")
+				continue
+			}
+			L := lk.path(D.owner)
+			h := lockAt(D)
+			m, has := h[L]
+			rely := "receivers"
+			if len(seqs) > 0 {
+				rely = seqs[0].descr
+			}
+			switch {
+			case has && m == 'W':
+				r.OK(rule, key, site, fmt.Sprintf("%s%s %s; %s is held exclusively at the call on every path (entry lockset of %s: %s), excluding %s", D.op.name, via, whyD, L, FuncKey(TopFunc(D.c.Fn)), c14EntryDesc(cx, TopFunc(D.c.Fn)), rely))
+			case D.viaLocks:
+				nBad++
+				r.Undecided(rule, key, site, fmt.Sprintf("%s%s %s; %s is not held exclusively at the wrapper's call site (held: %s) and the wrapper takes locks of its own, which are not related to the storage object", D.op.name, via, whyD, L, h))
+			case has:
+				nBad++
+				r.Violation(rule, key, site, fmt.Sprintf("directory removed while receivers may be between MkdirAll and TempFile: %s%s %s and runs with only the READ side of %s held (held: %s; entry lockset of %s: %s). The read side admits several holders at once, so it does not exclude %s, which holds the same lock for reading: the directory can vanish between the two calls and the receive fails with 'no such file or directory' on a healthy store — a result no sequential order of the calls gives", D.op.name, via, whyD, L, h, FuncKey(TopFunc(D.c.Fn)), c14EntryDesc(cx, TopFunc(D.c.Fn)), rely))
+			default:
+				nBad++
+				r.Violation(rule, key, site, fmt.Sprintf("directory removed while receivers may be between MkdirAll and TempFile: %s%s %s and runs without %s held (held: %s; entry lockset of %s: %s), so nothing excludes %s: the directory can vanish between the two calls and the receive fails on a healthy store", D.op.name, via, whyD, L, h, FuncKey(TopFunc(D.c.Fn)), c14EntryDesc(cx, TopFunc(D.c.Fn)), rely))
+			}
+		}
+		sort.Strings(under)
+		summary := fmt.Sprintf("%s guards no struct field (no guard-table entry) but the directory tree below the storage: held around %s; %d make-directory→create-in-it pair(s) and %d directory-removing call(s) of %s checked (see their obligations)", lk.key(), strings.Join(dedupe(under), ", "), len(seqs), nDestroy, typeKey(lk.T))
+		switch {
+		case nBad > 0:
+			r.Violation(rule, resKey, resSite, summary+fmt.Sprintf("; %d of them do not hold it as needed", nBad))
+		case len(seqs) == 0 || nDestroy == 0:
+			r.OKTable(rule, resKey, resSite, summary+"; one of the two sides is absent, nothing can interleave")
+		default:
+			r.OK(rule, resKey, resSite, summary+": every pair holds it (R or W) without a gap, every removal holds it for writing")
+		}
+	}
+	for _, s := range st.unowned {
+		if nRes == 0 {
+			break
+		}
+		r.Undecided(rule, FuncKey(s.c.Fn)+"#destroy:"+s.op.name+"#unowned", p.Pos(s.c.Pos()), s.op.name+" removes a directory on a VFS that cannot be related to a storage object (neither a field of one nor reached from a method of one): which directory lock it needs is unknown")
+	}
+	r.Analysed("candidate_resource_rwmutexes", len(st.cands))
+	r.Analysed("directory_locks", nRes)
+	r.Analysed("classified_filesystem_calls", st.nCalls)
+	r.Floor(rule, 4)
 }
